@@ -258,7 +258,7 @@ def _rec(ctx, cfg, prog, mod):
                site='%s:%d' % (b0.file, b0.line))
         if cfg == ctx.cfgs[0]:
             ctx.sample({'rule': 'REC', 'cycle': sorted(comp), 'idiom': idiom, 'holds': ok})
-    ctx.floor('recursive cycles found', 5, len(sccs), cfg)
+    ctx.floor('recursive cycles found', 3, len(sccs), cfg)
 
 
 def _check_idiom(prog, mod, comp, idiom):
